@@ -9,26 +9,28 @@ TECH = {
  'C03': 'finite valuation of the target test + recursion completeness + guard dominance on MIR (TABLE/REC/GUARD)',
  'C04': 'who-may-construct census over node construction sites with guard dominance and truth tables (WHO/GUARD/TABLE)',
  'C05': 'writer/reader shape-table extraction and inverse check across crate and dependency MIR (CODEC/FLOW)',
- 'C06': 'accept-exit guard dominance, finite valuation of arity tests, strict-order idiom check (GUARD/CODEC/WHO/PANIC)',
+ 'C06': 'accept-exit guard dominance, finite valuation of arity tests, strict-order idiom check (GUARD/CODEC/WHO/PANIC) + error discipline (ERRFLOW) + decoder-side element validity',
  'C07': 'hash-iteration-order taint into ordered sinks + receiver immutability + wrap/unwrap inverse (ORDER/TYPE/FLOW)',
  'C08': 'accept-exit guard dominance and wiring terms for symmetric decrypt; sink pairing (GUARD/FLOW)',
- 'C09': 'sign/verify message symmetry, single verification primitive census, accept-exit guard dominance, threshold ordering table (FLOW/WHO/GUARD/TABLE)',
- 'C10': 'content-key flow to subject and every recipient, writer/reader agreement, accept-exit guards (FLOW/CODEC/GUARD)',
- 'C11': 'split/join wiring terms, grouping by identifier, failure-exit classification (FLOW/GUARD)',
+ 'C09': 'sign/verify message symmetry, single verification primitive census, accept-exit guard dominance, threshold ordering table (FLOW/WHO/GUARD/TABLE) + error discipline (ERRFLOW)',
+ 'C10': 'content-key flow to subject and every recipient, writer/reader agreement, accept-exit guards (FLOW/CODEC/GUARD) + error discipline (ERRFLOW)',
+ 'C11': 'split/join wiring terms, grouping by identifier, failure-exit classification (FLOW/GUARD) + error discipline (ERRFLOW)',
  'C12': 'guard dominance of both confirmation conjuncts, proof composition terms, recursion completeness (GUARD/FLOW/REC)',
- 'C13': 'sink pairing, accept-exit guard dominance, per-arm refusal/idempotence check (FLOW/GUARD)',
+ 'C13': 'sink pairing, accept-exit guard dominance, per-arm refusal/idempotence check (FLOW/GUARD) + error discipline (ERRFLOW)',
  'C14': 'finite valuation of the identity test, marker-injectivity table, post-dominance of the digest append (TABLE/FLOW)',
- 'C15': 'recursion completeness and context-argument check for both walks, ordering/truth tables for queries (REC/TABLE/FLOW)',
+ 'C15': 'recursion completeness and context-argument check for both walks, ordering/truth tables for queries (REC/TABLE/FLOW) + error discipline (ERRFLOW)',
  'C16': 'ledger of every panic-capable MIR site, each discharged by a named dominance/dataflow rule (PANIC)',
  'C17': 'salting wiring terms, RNG-source census, salted-flag truth table (FLOW/TABLE/WHO)',
- 'C18': 'writer/reader field tables for expression types, exactly-one-of truth table, tag/function guards (CODEC/TABLE/GUARD)',
- 'C19': 'attachment writer/reader tables, validation guard dominance, 32-row filter truth table (CODEC/GUARD/TABLE)',
- 'C20': 'lock-order graph from guard live ranges with Once gating, panic-under-guard check, Send/Sync compile witnesses (LOCK/TYPE)',
+ 'C18': 'writer/reader field tables for expression types, exactly-one-of truth table, tag/function guards (CODEC/TABLE/GUARD) + error discipline (ERRFLOW)',
+ 'C19': 'attachment writer/reader tables, validation guard dominance, 32-row filter truth table (CODEC/GUARD/TABLE) + error discipline (ERRFLOW)',
+ 'C20': 'lock-order graph from guard live ranges with Once gating, panic-under-guard check, Send/Sync compile witnesses (LOCK/TYPE) + statics census + declared lock hierarchy',
 }
 LEVEL_TEXT = ('Static rule checking over the compiler\'s resolved MIR of the current /repo tree (custom rustc_private driver + rule '
               'engine): sound for the named structural clauses (each a necessary condition of the property, universal over all '
               'inputs/paths) under the stated trusted base; the library is never executed. The behavioural remainder that depends on '
-              'runtime values or on the dependencies\' own code is listed in level_note and DESIGN.md.')
+              'runtime values or on the dependencies\' own code is listed in level_note and DESIGN.md. A verdict is taken over a ladder of '
+              'behaviour-preserving representations of the same source (as written; private helpers inlined; iterator chains lowered to loops): '
+              'the rules are sound for whichever they are given, so a pass on any of them is a pass (DESIGN.md section 12a).')
 REASONS = {}
 def main():
     props = [json.loads(l) for l in open(os.path.join(V, 'properties.jsonl'))]
